@@ -336,7 +336,7 @@ def string_pool(rng, tier, valid_utf8_only=True):
 @register
 class C18(Base):
     id = 'C18'
-    ops = ['tn', 'dec']
+    ops = ['tn', 'dec', 'stream']
     rule = ('bounded-exhaustive strings over {/,+,#,$,a,NUL,2-,3-,4-byte chars} (quick: length <= 4, thorough <= 6) behind 12 '
             'prefix shapes, random strings up to length 9, long strings at 65,533..65,537 bytes, UTF-8 boundary sequences; '
             'the same strings as PUBLISH topic, will topic (v3, v5) and Response Topic (PUBLISH and will properties). '
@@ -346,6 +346,7 @@ class C18(Base):
         cs = self.corpus()
         dist = {}
         self.meta = {}
+        self.chunked = {}
         pool = string_pool(rng, tier)
         for s in pool:
             cs.append('tn ' + pk.hx(s))
@@ -367,7 +368,16 @@ class C18(Base):
                 self.meta[c] = (where, s)
                 cs.append(c)
                 hist(dist, 'dec:%s:%s' % (p[0], where))
+                # the same frame over a transport that splits every field across reads (async decode path)
+                if len(s) < 200 and (len(s) > 1 or where == 'name') and rng.random() < 0.25:
+                    sc = 'stream %s async %s %d' % (fam, c.split()[2], rng.choice([1, 1, 2, 3]))
+                    self.chunked[sc] = c
+                    cs.append(sc)
+                    hist(dist, 'stream-chunked:%s:%s' % (p[0], where))
         return cs, dist
+
+    def context(self, cases, act):
+        return {c: lib.normalize(a) for c, a in zip(cases, act) if c.startswith('dec ')}
 
     @staticmethod
     def name_ok(s):
@@ -393,6 +403,16 @@ class C18(Base):
                     return 'is_shared wrong'
                 if f.get('sys') != ('1' if s.startswith(b'$SYS/') else '0'):
                     return 'is_sys wrong'
+            return None
+        if t[0] == 'stream':
+            ref = ctx.get(self.chunked.get(case, '')) if ctx else None
+            if ref is None:
+                return None
+            f, r = fields(line), fields(ref).get('async', '')
+            got = ('ok ' + f.get('pkts', '').split('|')[0]) if f.get('n') != '0' else f.get('final', '')
+            if got != r:
+                return ('async decoder over a transport delivering %s byte(s) per read: %s; over a contiguous reader: %s'
+                        % (t[4], got[:90], r[:90]))
             return None
         where, s = self.meta.get(case, (None, None))
         if where is None:
@@ -534,6 +554,18 @@ class C17(Base):
         for s in pool:
             cs.append('tf ' + pk.hx(s))
             hist(dist, 'tf:shared' if s.startswith(b'$share/') else 'tf:plain')
+        # pairs of shared filters that differ ONLY in the share name (same length) or ONLY in the filter part
+        for s in [x for x in pool if x.startswith(b'$share/') and len(x) < 120][:800]:
+            name, flt = s[7:].split(b'/', 1)
+            if name and name[-1:] != b'x':
+                other = b'$share/' + name[:-1] + (b'x' if name[-1] < 0x80 else name[-1:]) + b'/' + flt
+                if other != s and (filter_rule(other) or (False,))[0]:
+                    cs.append('tfcmp %s %s' % (pk.hx(s), pk.hx(other)))
+                    hist(dist, 'tfcmp:share-name-only')
+            other = b'$share/' + name + b'/' + flt + b'/y'
+            if (filter_rule(other) or (False,))[0]:
+                cs.append('tfcmp %s %s' % (pk.hx(s), pk.hx(other)))
+                hist(dist, 'tfcmp:filter-only')
         n = 6000 if tier == 'quick' else 200000
         small = [s for s in pool if len(s) < 200]
         for _ in range(n):
@@ -610,7 +642,7 @@ def enc_bytes(f):
 @register
 class C01(Base):
     id = 'C01'
-    ops = ['rt']
+    ops = ['rt', 'stream', 'sched']
     rule = ('G-pkt: random valid packets of all 14 v3 + 15 v5 types, every return/reason code x property presence (all/none), '
             'every flag / subscription-option combination, every property alone, user-property lists of length 0..40, '
             'text/binary lengths from {0,1,127,128,16383,16384,65535}, size-targeted remaining lengths and property '
@@ -620,11 +652,46 @@ class C01(Base):
         cs = self.corpus()
         ps, dist = both_pools(rng, tier)
         cs += ['rt %s %s' % (fam, pk.tok(fam, p)) for fam, p in ps]
+        # the same encodings handed to the async and poll decoders in small chunks with Pending in between (a real
+        # transport): the decoded packet must still be the original
+        self.chunked = {}
+        for fam, p in ps:
+            b = pk.encode(fam, p)
+            if len(b) > 1200 or (len(b) > 140 and rng.random() < 0.6) or rng.random() < 0.4:
+                continue
+            for k in ((1,) if (len(b) > 300 or rng.random() < 0.6) else (1, 3)):
+                c = 'stream %s async %s %d' % (fam, pk.hx(b), k)
+                self.chunked[c] = (pk.tok(fam, p), len(b))
+                cs.append(c)
+                hist(dist, 'chunked:async')
+            # poll decoder: one byte per read, a Pending before every byte (so every header byte arrives in its own poll call)
+            c = 'sched %s %s eof' % (fam, '.'.join('p.b%02x.c' % x for x in b))
+            self.chunked[c] = (pk.tok(fam, p), len(b))
+            cs.append(c)
+            hist(dist, 'chunked:poll')
         return cs, dist
 
     def judge(self, case, line, spec, ctx, i):
         if line == 'BADCASE':
             return 'harness could not build the packet (generator bug?)'
+        if case.startswith('sched '):
+            m = self.chunked.get(case)
+            if m is None:
+                return None
+            f = fields(line)
+            if f.get('res') != 'ok ' + m[0] or f.get('total') != str(m[1]) or f.get('used') != str(m[1]):
+                return ('poll decoder fed the encoding one byte per read with a Pending before each returns %s (total %s), not the '
+                        'original packet' % (f.get('res', '')[:120], f.get('total')))
+            return None
+        if case.startswith('stream '):
+            m = self.chunked.get(case)
+            if m is None:
+                return None
+            f = fields(line)
+            if f.get('pkts') != m[0] or f.get('sizes') != str(m[1]):
+                return ('%s decoder fed the encoding in chunks of %s bytes with Pending in between returns %s (sizes %s), not the '
+                        'original packet' % (case.split()[2], case.split()[4], f.get('pkts', '')[:120], f.get('sizes')))
+            return None
         want = 'ok ' + case.split(' ', 2)[2]
         f = fields(line)
         b = enc_bytes(f)
@@ -646,6 +713,8 @@ class C01(Base):
         return None
 
     def nontrivial(self, case, line):
+        if case.startswith('stream ') or case.startswith('sched '):
+            return True
         return case.split()[2] not in ('pingreq', 'pingresp', 'disconnect') or case.split()[1] == 'v5'
 
 
@@ -653,7 +722,7 @@ class C01(Base):
 @register
 class C02(Base):
     id = 'C02'
-    ops = ['enc', 'big', 'kf1']
+    ops = ['enc', 'big', 'kf1', 'wr']
     cross_profile = True
     rule = ('the C01 packet pool through Packet::encode, Packet::encode_len, every body and every separately encodable '
             'part (protocol, will, each property set), in both build profiles (outputs must be identical); shape-only '
@@ -664,6 +733,17 @@ class C02(Base):
         cs = self.corpus()
         ps, dist = both_pools(rng, tier)
         cs += ['enc %s %s' % (fam, pk.tok(fam, p)) for fam, p in ps]
+        # "the number of bytes the encoder emits": also through encode_async into sinks that accept only part of a write
+        self.sinks = {}
+        for fam, p in ps:
+            b = pk.encode(fam, p)
+            if len(b) > 600 or rng.random() < 0.75:
+                continue
+            for sc in ('a1', '.'.join(['a1'] * min(len(b), 40)), 'a3.p.a2', 'p.a%d' % max(1, len(b) - 1)):
+                c = 'wr %s async %s %s' % (fam, pk.tok(fam, p), sc)
+                self.sinks[c] = b
+                cs.append(c)
+                hist(dist, 'async-partial-sink')
         for fam in ('v3', 'v5'):
             extra = 0 if fam == 'v3' else 1
             for rl in (126, 127, 128, 129, 16382, 16383, 16384, 16385, 2097150, 2097151, 2097152, 2097153,
@@ -679,6 +759,15 @@ class C02(Base):
 
     def judge(self, case, line, spec, ctx, i):
         t = case.split()
+        if t[0] == 'wr':
+            b = self.sinks.get(case)
+            if b is None:
+                return None
+            f = fields(line)
+            if f.get('res') != 'ok' or f.get('written') != pk.hx(b):
+                return ('encode_async into a sink accepting part of each write emitted %d bytes (%s), the packet reports %d'
+                        % ((len(f.get('written', 'x')) - 1) // 2, f.get('res'), len(b)))
+            return None
         if t[0] == 'kf1':
             f = fields(line)
             n = int(t[1]) * (5 + 2 * 65535)
@@ -729,14 +818,14 @@ class C02(Base):
         return None
 
     def nontrivial(self, case, line):
-        return 'parts=-' not in line or len(line) > 400
+        return case.startswith('wr ') or 'parts=-' not in line or len(line) > 400
 
 
 # ====================================================================== C10
 @register
 class C10(Base):
     id = 'C10'
-    ops = ['enc', 'code']
+    ops = ['enc', 'code', 'wr']
     profiles = ('release',)
     rule = ('the C01 packet pool (every enum variant written as a wire number, every property) encoded by the implementation; '
             'the judge feeds the implementation\'s bytes to the extracted reference parser Spec.parse (independent tables, '
@@ -748,11 +837,26 @@ class C10(Base):
         cs += ['enc %s %s' % (fam, pk.tok(fam, p)) for fam, p in ps]
         import props2
         cs += props2.code_cases()
+        # the bytes that reach the wire through encode_async when the sink takes only part of each write
+        for fam, p in ps:
+            if rng.random() < 0.85:
+                continue
+            tok = pk.tok(fam, p)
+            if len(tok) > 1500:
+                continue
+            cs.append('wr %s async %s %s' % (fam, tok, rng.choice(['a1', 'a2.p.a3', 'a5'])))
+            hist(dist, 'async-partial-sink')
         return cs, dist
 
     def spec_phase(self, cases, act, workdir, prof):
         lines, idx = [], []
         for i, (c, a) in enumerate(zip(cases, act)):
+            if c.startswith('wr '):
+                w = fields(lib.normalize(a)).get('written')
+                if w and w != 'x':
+                    idx.append(i)
+                    lines.append('specparse %s %s' % (c.split()[1], w))
+                continue
             if not c.startswith('enc '):
                 continue
             b = enc_bytes(fields(lib.normalize(a)))
@@ -769,6 +873,12 @@ class C10(Base):
         if case.startswith('code '):
             import props2
             return props2.judge_code(case, line)
+        if case.startswith('wr '):
+            want = 'ok ' + case.split(' ', 3)[3].rsplit(' ', 1)[0]
+            if spec != want:
+                return ('the bytes encode_async put on a sink that accepts part of each write are read by the independent MQTT '
+                        'parser as: %s' % str(spec)[:160])
+            return None
         if spec is None:
             return 'encode failed: ' + line[:100]
         want = 'ok ' + case.split(' ', 2)[2]
@@ -777,7 +887,7 @@ class C10(Base):
         return None
 
     def nontrivial(self, case, line):
-        return case.startswith('code ') or case.split()[2] not in ('pingreq', 'pingresp')
+        return case.startswith('code ') or case.startswith('wr ') or case.split()[2] not in ('pingreq', 'pingresp')
 
 
 # ====================================================================== C09
@@ -991,6 +1101,44 @@ def random_schedule(b, rng, pend=0.2, cut=0.4):
 
 
 # ====================================================================== C12 / C11 / C06
+def pend_atoms(b):
+    """one byte per read, a Pending before every byte: every header byte arrives in its own poll call"""
+    return '.'.join('p.b%02x.c' % x for x in b) if b else '-'
+
+
+def huge_decl(b):
+    """the frame declares a body of more than 1 MB (the decoder allocates it up front; a byte-per-read schedule over it
+    only measures the allocator, and in the debug profile exceeds the per-case watchdog)"""
+    fi = frame_info(b)
+    return fi is not None and fi[1] > (1 << 20)
+
+
+def pend_sched_cases(owner, cs, dist, frames, rng, n):
+    """for a sample of (fam, bytes) frames — biased towards bodies of >= 128 bytes, whose remaining length spans several
+    header bytes — add a poll run under the pend_atoms schedule; judged against the one-shot poll result of `dec`"""
+    owner.pend_ref = {}
+    frames = [(f, b) for f, b in frames if not huge_decl(b)]
+    big = [(f, b) for f, b in frames if 130 <= len(b) <= 900]
+    small = [(f, b) for f, b in frames if 2 <= len(b) < 130]
+    pick = rng.sample(big, min(len(big), n // 2)) + rng.sample(small, min(len(small), n // 2))
+    for fam, b in pick:
+        sc = 'sched %s %s eof' % (fam, pend_atoms(b))
+        owner.pend_ref[sc] = 'dec %s %s' % (fam, pk.hx(b))
+        cs.append(sc)
+        hist(dist, 'pend-every-byte')
+
+
+def judge_pend_sched(owner, case, line, ctx):
+    ref = ctx.get(owner.pend_ref.get(case, '')) if ctx else None
+    if ref is None:
+        return None
+    f, rf = fields(line), fields(ref)
+    if f.get('res') != rf.get('poll'):
+        return ('poll decoder fed one byte per read with a Pending before each returns %s, fed at once %s'
+                % (f.get('res', '')[:100], rf.get('poll', '')[:100]))
+    return None
+
+
 def res_class(v):
     """ok / err / none / PANIC ... without the payload"""
     return v.split(' ')[0] if v else v
@@ -1070,9 +1218,18 @@ class C12(DecBase):
                     ('v3', ('unsubscribe', 3, [b'ok', x])),
                 ]
                 for fam, p in frames:
-                    b = pk.encode(fam, p).replace(x, pre + pat)
+                    b0 = pk.encode(fam, p)
+                    b = b0.replace(x, pre + pat)
                     cs.append('dec %s %s' % (fam, pk.hx(b)))
                     hist(dist, 'bad-utf8-everywhere')
+                    # and exactly one ill-formed field per frame, so that no earlier field masks a later one
+                    at = -1
+                    while True:
+                        at = b0.find(x, at + 1)
+                        if at < 0:
+                            break
+                        cs.append('dec %s %s' % (fam, pk.hx(b0[:at] + pre + pat + b0[at + len(x):])))
+                        hist(dist, 'bad-utf8-single-field')
         return cs, dist
 
     def judge(self, case, line, spec, ctx, i):
@@ -1095,7 +1252,7 @@ class C12(DecBase):
 @register
 class C11(DecBase):
     id = 'C11'
-    ops = ['dec']
+    ops = ['dec', 'sched', 'wr']
     rule = ('everything any front-end accepts from: valid packets, short forms spelled out, permuted / interleaved properties, '
             'non-minimal variable byte integers (remaining length, property length, subscription identifier), corrupted frames '
             'that survive, and lenient framing (declared remaining length shorter or longer than the body, for the blocking '
@@ -1116,10 +1273,36 @@ class C11(DecBase):
                     cs.append('dec %s %s' % (fam, pk.hx(b[:1] + pk.vbi(new) + b[hl:] + b'\x00\x00')))
                     hist(dist, 'lenient-framing')
         cs.append('dec v3 ' + pk.hx(b'\x10\x00\x00\x04MQTT\x04\x02\x00\x0a\x00\x96' + b'c' * 150))    # KF2 witness (a)
+        # acceptance must not depend on the delivery schedule either
+        pend_sched_cases(self, cs, dist, [(fam, b) for fam, b, tag, _ in pool if tag in ('valid', 'spell')], rng,
+                         400 if tier == 'quick' else 6000)
+        # re-encoding through the async entry point into a sink that takes part of each write
+        self.sinks = {}
+        ps, _ = both_pools(rng, tier, n_random=6 if tier == 'quick' else 80)
+        for fam, p in ps:
+            b = pk.encode(fam, p)
+            if len(b) > 400:
+                continue
+            for sc in ('a1', 'a3.p.a2', '.'.join(['a2'] * min(len(b), 30))):
+                c = 'wr %s async %s %s' % (fam, pk.tok(fam, p), sc)
+                self.sinks[c] = b
+                cs.append(c)
+                hist(dist, 'async-partial-sink')
         return cs, dist
+
+    def context(self, cases, act):
+        return {c: lib.normalize(a) for c, a in zip(cases, act) if c.startswith('dec ')}
 
     def judge(self, case, line, spec, ctx, i):
         f = fields(line)
+        if case.startswith('sched '):
+            return judge_pend_sched(self, case, line, ctx)
+        if case.startswith('wr '):
+            b = self.sinks.get(case)
+            if b is not None and (f.get('res') != 'ok' or f.get('written') != pk.hx(b)):
+                return ('re-encoding through encode_async into a sink that accepts part of each write emitted %s (%d bytes), '
+                        'not the %d-byte encoding' % (f.get('res'), (len(f.get('written', 'x')) - 1) // 2, len(b)))
+            return None
         b = bytes.fromhex(case.split()[2][1:])
         fi = frame_info(b)
         for x, fe, used in (('b', 'block', 'aused'), ('a', 'async', 'aused'), ('p', 'poll', 'pused')):
@@ -1148,6 +1331,8 @@ class C11(DecBase):
 
     def project(self, case, line):
         f = fields(line)
+        if not case.startswith('dec '):
+            return line
         return self.front_ends(case, f, ('block', 'async', 'poll')) + ';' + ';'.join(
             '%s=%s' % (k, f.get(k, '')) for k in ('aused', 'pused', 'ptotal', 'bre', 'are', 'pre'))
 
@@ -1176,13 +1361,20 @@ class C06(DecBase):
         # the agreement must not depend on the transport handing the poll decoder everything at once: the same
         # frames delivered in small chunks (no Pending) must give the poll result of the one-shot `dec`
         self.chunked = {}
-        small = [c for c in cs if c.startswith('dec ') and 4 < len(c.split()[2]) < 200]
-        for c in rng.sample(small, min(len(small), 1500 if tier == 'quick' else 20000)):
+        small = [c for c in cs if c.startswith('dec ') and 4 < len(c.split()[2]) < 200
+                 and not huge_decl(bytes.fromhex(c.split()[2][1:]))]
+        big = [c for c in cs if c.startswith('dec ') and 270 < len(c.split()[2]) < 900
+               and not huge_decl(bytes.fromhex(c.split()[2][1:]))]
+        for c in (rng.sample(small, min(len(small), 1500 if tier == 'quick' else 20000))
+                  + rng.sample(big, min(len(big), 300 if tier == 'quick' else 4000))):
             _, fam, hx_ = c.split()
             b = bytes.fromhex(hx_[1:])
             k = rng.choice([1, 1, 2, 3])
+            pend = rng.random() < 0.5
             atoms = []
             for j, x in enumerate(b):
+                if pend and j % k == 0:
+                    atoms.append('p')
                 atoms.append('b%02x' % x)
                 if (j + 1) % k == 0:
                     atoms.append('c')
